@@ -12,5 +12,5 @@ PROP = {
  'level_note': 'Trusted base: the bound bookkeeping in harness/C03.cpp; private state read through NodeTestAccess / accessor. "Rejected without changing node state" means manifest-derived '
                'state; announce throttle / reputation bookkeeping may change. Acceptance is asserted only for ingest_manifest / receive_chunk with at least one second of slack.',
  'assumptions': ['steady and system clocks in lock-step (interposed)', 'announce PoW off; the announcing peer has a session (fetch dispatch needs no network)'],
- 'tiers': {'quick': [rc(3000)],
+ 'tiers': {'quick': [rc(2000)],
            'thorough': [rc(15000, W), fuzz(180, 8, max_len=8 + 8 * 30)]}}
